@@ -643,7 +643,9 @@ def main():
         for i in inconclusive:
             print(f"INCONCLUSIVE property={pid} {i}")
         sys.exit(2)
-    print(f"OK property={pid} tier={args.tier}: {len(results)} solver queries, all within bounds hold "
+    held = "all within bounds hold" if not known_hits else (
+        f"{len(known_hits)} refuted as listed known finding(s) above, all others within bounds hold")
+    print(f"OK property={pid} tier={args.tier}: {len(results)} solver queries, {held} "
           f"({sum(getattr(r,'n_checks',0) for r in results)} checks discharged) in {time.time()-t_start:.0f}s")
     sys.exit(0)
 
